@@ -5,6 +5,7 @@ from scipy import optimize, sparse
 from functools import partial
 from collections import defaultdict
 from copy import deepcopy
+from mbi import _verif_trace as _vt
 
 """
 This file implements Approx-Private-PGM from the following paper:
@@ -88,6 +89,8 @@ class LocalInference:
         theta = theta0
         mu = model.belief_propagation(theta)
         l0, _ = self._marginal_loss(mu)
+        if _vt.ON and _vt.sink is not None:
+            _vt.emit('lmd.start', alpha=float(alpha), iters=iters, l0=float(l0))
         
         prev_l = np.inf
         for t in range(iters):
@@ -97,26 +100,37 @@ class LocalInference:
             theta = theta - alpha*dL
             #print(np.sqrt(dL.dot(dL)), np.sqrt(theta.dot(theta)))
             mu = model.belief_propagation(theta)
+            if _vt.ON and _vt.sink is not None:
+                _vt.emit('lmd.iter', t=t, l=float(l), prev_l=float(prev_l), alpha=float(alpha))
             if l > prev_l:
                 if t <= 50:
                     if self.log: print('Reducing learning rate and restarting', alpha/2)
                     model.potentials = theta0
                     model.messages = messages0
+                    if _vt.ON and _vt.sink is not None:
+                        _vt.emit('lmd.restart', t=t, new_alpha=float(alpha/2),
+                                 pot_restored=model.potentials is theta0, msg_restored=model.messages is messages0)
                     return self.mirror_descent_auto(alpha/2, iters, callback)
                 else:
                     #print('Reducing learning rate and continuing', alpha/2)
                     model.damping = (0.9 + model.damping) / 2.0
                     if self.log: print('Increasing damping and continuing', model.damping)
                     alpha *= 0.5
+                    if _vt.ON and _vt.sink is not None:
+                        _vt.emit('lmd.damp', t=t, damping=float(model.damping), alpha=float(alpha))
             prev_l = l
 
         # run some extra iterations with no gradient update to make sure things are primal feasible
         for _ in range(1000):
+            if _vt.ON and _vt.sink is not None:
+                _vt.emit('lmd.post', k=_, feas=float(model.primal_feasibility(mu)))
             if model.primal_feasibility(mu) < 1.0:
                 break
             mu = model.belief_propagation(theta)
             if callback is not None:
                 callback(mu)
+        if _vt.ON and _vt.sink is not None:
+            _vt.emit('lmd.return', l=float(l), theta_id=id(theta), mu_id=id(mu))
         return l, theta, mu
 
     def mirror_descent(self, measurements, total=None, initial_alpha=10.0, callback=None):
